@@ -2798,6 +2798,10 @@ func (uconn *UConn) ApplyPreset(p *ClientHelloSpec) error {
 			strconv.Itoa(len(hello.Random)) + " bytes")
 	}
 
+	if len(p.CompressionMethods) > 0 {
+		// the spec's list (nil => no compression, i.e. the default below)
+		hello.CompressionMethods = append([]uint8(nil), p.CompressionMethods...)
+	}
 	if len(hello.CompressionMethods) == 0 {
 		hello.CompressionMethods = []uint8{compressionNone}
 	}
